@@ -52,9 +52,10 @@ def ladder(lo, hi):
 
 
 class C03System(BuilderSystem):
-    def __init__(self, label, bounds, families, translate=None, rebound=None, hooks=False):
+    def __init__(self, label, bounds, families, translate=None, rebound=None, hooks=False, start=None):
         self.label = label
         self.hooks = hooks
+        self.start = start
         self.bounds0 = bounds            # dict name -> (lo, hi); axes -> ((x,y,z),(x,y,z))
         self.families = families
         self.translate = translate
@@ -71,6 +72,12 @@ class C03System(BuilderSystem):
             st.g.transform.translate(*self.translate)
             st.offset = tuple(float(v) for v in self.translate)
         st.g.set_resolution(1.0)
+        if self.start:
+            # positioning prefix: a known start inside the box, relative mode (saves two levels of depth)
+            st.g.set_axis(x=self.start[0], y=self.start[1], z=self.start[2])
+            st.g.set_distance_mode("relative")
+            for c in st.rec.take():
+                st.machine.feed_words([w for w in __import__("gverif.oracles.lex", fromlist=["x"]).executable_words(c.decode().rstrip()) if w[0] != "?"])
         st.hooks = {}
         if self.hooks:
             for key in ("F", "S"):
@@ -288,6 +295,7 @@ ALL = {"axes": BOX, "feed-rate": (10, 100), "tool-power": (200, 300), "tool-numb
 def systems(tier):
     q = [
         ("axes", C03System("axes", {"axes": BOX}, ["axes"], rebound=("axes", (1, 1, -1), (3, 3, 0.5))), 3),
+        ("axes-relative-from-known-start", C03System("axes-relative-from-known-start", {"axes": BOX}, ["axes"], start=(2, 2, 0)), 2),
         ("feed", C03System("feed", {"feed-rate": R}, ["feed-rate"], rebound=("feed-rate", 20, 50)), 3),
         ("power", C03System("power", {"tool-power": R}, ["tool-power"], rebound=("tool-power", 0, 50)), 3),
         ("feed+power", C03System("feed+power", {"feed-rate": (10, 100), "tool-power": (200, 300)}, ["feed-rate", "tool-power"]), 2),
@@ -303,6 +311,7 @@ def systems(tier):
         ("power", C03System("power", {"tool-power": R}, ["tool-power"], rebound=("tool-power", 0, 50)), 3),
         ("temps+tool", q[3][1], 3),
         ("axes+feed", C03System("axes+feed", {"axes": BOX, "feed-rate": R}, ["axes", "feed-rate"]), 2),
+        ("axes-relative-from-known-start", C03System("axes-relative-from-known-start", {"axes": BOX}, ["axes"], start=(2, 2, 0)), 3),
         ("feed+power-hooks", C03System("feed+power-hooks", {"feed-rate": (10, 100), "tool-power": (200, 300)}, ["feed-rate", "tool-power"], hooks=True), 3),
         ("all-seven", C03System("all-seven", ALL, list(ALL)), 2),
         ("axes-translated", C03System("axes-translated", {"axes": BOX}, ["axes"], translate=(10, 0, 0)), 3),
